@@ -63,6 +63,10 @@ pub open spec fn cells_init(cs: Seq<MaybeUninit<u8>>, n: int) -> bool {
 pub open spec fn cells_val(cs: Seq<MaybeUninit<u8>>, n: int) -> Seq<u8> {
     Seq::new(n as nat, |i: int| cs[i].mem_contents().value())
 }
+/// going from cells `a` to cells `b` no initialised byte was de-initialised
+pub open spec fn no_deinit(a: Seq<MaybeUninit<u8>>, b: Seq<MaybeUninit<u8>>) -> bool {
+    a.len() == b.len() && forall|i: int| 0 <= i < b.len() && a[i].mem_contents() is Init ==> (#[trigger] b[i]).mem_contents() is Init
+}
 pub open spec fn is_prefix_of(a: Seq<u8>, b: Seq<u8>) -> bool {
     a.len() <= b.len() && b.take(a.len() as int) == a
 }
@@ -110,6 +114,8 @@ pub mod rt {
                 r.last_fill().len() <= r.cap(),
                 final(raw)@.len() == old(raw)@.len(),
                 cells_hold(final(raw)@, r.last_fill()),
+                // hyper never de-initialises a byte ("if part of it turns out to be initialized, it must stay initialized")
+                no_deinit(old(raw)@, final(raw)@),
         { unimplemented!() }
 
         #[verifier::external_body]
